@@ -358,6 +358,7 @@ def run(ch: Checker) -> None:
     tests = [norm(t.test) for t in walk_no_nested(proc.node) if isinstance(t, ast.If)]
     ch.check(any('WAITING_FOR_SIZE' in t for t in tests) and any('WAITING_FOR_DATA' in t for t in tests), 'C03.5', proc, 'chunk state dispatch',
              'both non-final chunk states handled', 'ChunkParser.process does not handle both WAITING_FOR_SIZE and WAITING_FOR_DATA')
+    ch.import_rules('C05', {'C05.7': 'C03.10'}, 'the decoder gives the same answer for every segmentation only if what it accepts as a chunk size does not depend on what the previous piece left behind: a size token is an integer checked for its range, nothing stricter or looser than int(., 16) of the text before ";"')
 
 
 def _whole_is_crlf(key: str) -> bool:
